@@ -161,6 +161,31 @@ CHECKS.update({
     ),
 })
 
+CHECKS.update({
+    "C03": (
+        "exploration",
+        "enumerator",
+        "exhaustive enumeration of chunkings of the server byte stream (one chunk, byte-wise, every single cut, all pairs of cuts, all "
+        "2^(k-1) segmentations of a window sliding over every frame boundary) x announced-name/expected-name combinations, each on a fresh "
+        "Noise session of the real APIConnection against a responder written from the Noise specification",
+        "Every execution is a real handshake with fresh keys against an independent responder; readiness, deliveries after every chunk "
+        "and the client's own frames (decrypted by the responder) are compared with what the responder really sent.",
+        BASE,
+        "DESIGN.md §3 C03",
+    ),
+    "C04": (
+        "fault_enumeration",
+        "enumerator",
+        "fault enumeration over a recorded honest session: every byte position x {0x01,0x80,0xFF} (all 8 bits + 0xFF in thorough), every "
+        "truncation length, duplicate/drop/swap of every frame, every wrong marker at every frame start, every selector byte, error "
+        "frames, name mismatch, different key, framing mismatches and 70 key strings; oracle = reference receiver with its own cipher state",
+        "The corruption space of the session is enumerated completely; deliveries must equal the reference receiver's list (always a "
+        "byte-exact prefix of what was sent) and the error class of the first complete failing frame is asserted on the pending operation.",
+        BASE,
+        "DESIGN.md §3 C04",
+    ),
+})
+
 NOT_APPLICABLE: dict[str, str] = {}
 
 
